@@ -5,7 +5,8 @@
           | (2 tag (attr …) (node …))         element
           | (3 (node …))                      fragment
     attr  = (0 name aval) | (1 name tog) | (2 (name …) b) | (3 prop v) | (4 prop v)
-    aval  = (0 v) literal | (1) no value | (2 v) {String} | (3 b) {bool} | (4) {None} | (5 v) {Some v}
+    aval  = (0 v) string literal | (1) no value | (2 v) {String} or a non-string literal displaying as v
+          | (3 b) {bool} or true/false | (4) {None} | (5 v) {Some v}
     tog   = 0 no value | 1 {false} | 2 {true}
 
     observation = (view_html  builder_html  (inert_html)?  denote  parse(view_html)  parse(builder_html))
